@@ -1,6 +1,6 @@
 """C14 — subset ranges: partial decode equals a slice; merged subsets stay equal."""
 from vlib.engine import Scenario
-from gen import regs, datasets
+from gen import templates, regs, datasets
 from props.c10 import parse_nodes
 from props import c01
 
@@ -40,6 +40,40 @@ def scenarios(rng, tier, runner):
             for k in range(max(0, min(b, nsub) - a + 1) + 1):
                 ls += ["dd.list %d" % k, "dd.vals %d" % k]
         out.append(Scenario("rg-%d" % i, ls, meta))
+    # IEEE fields (2 09 YYY) in compressed and uncompressed data, constant columns (NBINC = 0) included
+    F32 = ["40490fdb", "00000000", "7f800000", "ff800000", "3f800000", "00000001", "c2f6e979"]
+    F64 = ["400921fb54442d18", "0000000000000000", "7ff0000000000000", "3ff0000000000000", "0000000000000001", "c05edd2f1a9fbe77"]
+    for i in range(40 if tier == "quick" else 600):
+        B, D = P["cur"]
+        w = rng.choice([32, 64])
+        nums = [rng.choice(templates.pool_of(B)["num"]) for _ in range(rng.choice([1, 2]))]
+        lead = [templates.pick_element(rng, B) for _ in range(rng.choice([0, 1]))]
+        t = lead + [209000 + w] + nums + [209000, templates.pick_element(rng, B)]
+        nsub = rng.choice([2, 3, 4, 5])
+        comp = rng.choice([0, 1, 1, 1])
+        ls = ["T.use cur", "tm.new 5 " + " ".join("%06d" % d for d in t)]
+        for k in range(nsub):
+            ls += ["ss.new", "ss.fill %d %d %d" % (k, rng.randrange(1, 2 ** 31), rng.choice([0, 1, 1]))]
+        for j in range(len(nums)):
+            const = rng.random() < 0.5
+            v0 = rng.choice(F32 if w == 32 else F64)
+            for k in range(nsub):
+                v = v0 if const else rng.choice(F32 if w == 32 else F64)
+                ls.append("%s %d %d %s" % ("ss.setf" if w == 32 else "ss.setd", k, len(lead) + 1 + j, v))
+        for k in range(nsub):
+            ls += ["ss.list %d" % k, "ss.vals %d" % k]
+        ls += ["ds.invalid", "ds.encode %d" % comp, "ds.decodelast 1 0 0"]
+        for k in range(nsub):
+            ls += ["dd.list %d" % k, "dd.vals %d" % k]
+        pairs = [(a, b) for a in range(1, nsub + 1) for b in range(a, nsub + 1)]
+        if len(pairs) > 6:
+            pairs = rng.sample(pairs, 6)
+        meta = {"tables": "cur", "ed": 5, "template": t, "nsub": nsub, "ranges": pairs, "comp": comp}
+        for a, b in pairs:
+            ls.append("ds.decodelast 1 %d %d" % (a, b))
+            for k in range(max(0, min(b, nsub) - a + 1) + 1):
+                ls += ["dd.list %d" % k, "dd.vals %d" % k]
+        out.append(Scenario("ieee-%d" % i, ls, meta))
     # merges
     m = 250 if tier == "quick" else 3000
     for i in range(m):
